@@ -52,8 +52,55 @@ def compare_window(acc, which, zid, z, rz, lo, hi):
         exp = tzrules.expected_intervals(rz, lo, hi)
     except Exception as ex:  # noqa: BLE001   (reference could not be evaluated: a fault of the checker, never a verdict)
         raise RuntimeError("reference evaluation failed for %s: %r" % (zid, ex))
-    w = zw.walk(z, lo, hi)
+    fired = []
+
+    def point(q, ref, order):
+        """one query through the provider's (cached) zone, judged against the reference interval - not against the library's walk"""
+        try:
+            got_t = zw.iv_tuple(z.get_zone_interval(zw.mk_instant(q)))
+        except zw.Hang:
+            raise
+        except Exception as ex:  # noqa: BLE001
+            acc.lib_exception("C06/%s/point/%s" % (which, zid), ex, {"file": which, "zone": zid, "instant_ns": q})
+            return
+        acc.count(evaluations=1, transitions=1)
+        if got_t != ref and not fired:
+            fired.append(q)
+            acc.violation("C06/%s/point/%s" % (which, zid),
+                          "zone %s: get_zone_interval(%s) through the provider's zone (%s) = %s, the file bytes put that instant in %s" % (
+                              zid, zw.fmt_ns(q), order, zw.fmt_iv(got_t), zw.fmt_iv(ref)),
+                          {"file": which, "zone": zid, "instant_ns": q, "window": [lo, hi], "got": got_t, "expected": ref},
+                          py=_py_interval(which, zid, q, ref))
+
+    def on_step(k, cur, zi, t):
+        # start+1ns, midpoint, end-1ns of the k-th REFERENCE interval, while the walk is there
+        if k < len(exp):
+            for q in zw.probe_points(exp[k]):
+                if q != cur:
+                    point(q, exp[k], "forward pass")
+
+    w = zw.walk(z, lo, hi, on_step=on_step)
     acc.count(states=len(w.tuples), transitions=w.steps, evaluations=w.steps)
+    # 32-day cache periods holding two or more reference transitions: queried again in DESCENDING order, so that the instants before
+    # the first transition of the period are asked after the later intervals of the same period
+    if exp:
+        ridx = zw.Index(exp)
+        per = 32 * DAY_NS
+        for pnum in sorted(zw.transitions_per_cache_period(exp)):
+            a, b = max(pnum * per, MIN_NS), min((pnum + 1) * per - 1, MAX_NS)
+            pts = {a, b}
+            for k in ridx.near(a, b):
+                for q in zw.probe_points(exp[k]):
+                    if a <= q <= b:
+                        pts.add(q)
+                if exp[k][0] is not None and a <= exp[k][0] - 1:
+                    pts.add(exp[k][0] - 1)
+            cov_lo = MIN_NS if exp[0][0] is None else exp[0][0]
+            cov_hi = MAX_NS if exp[-1][1] is None else exp[-1][1] - 1
+            for q in sorted(pts, reverse=True):
+                if cov_lo <= q <= cov_hi:
+                    point(q, exp[ridx.at(q)], "descending pass over a cache period with several transitions")
+            acc.outcome("cache-period-with-several-transitions")
     if w.error and w.error[0] == "exception":
         if exc_origin(w.error[2]) == "harness":
             raise w.error[2]
@@ -399,10 +446,10 @@ def build_items(tier, seed):
                 wins = zw.plan(rz, "cycle", cycle_years=ALIAS_TAIL_YEARS if alias else zw.CYCLE_YEARS)
                 if tier == "quick" and len(wins) == 2 and not alias:
                     y0 = tzrules.year_of_ns(wins[0][1])
-                    span = zw.FINAL_FROM_YEAR - 51 - y0
+                    span = zw.FINAL_FROM_YEAR - 21 - y0
                     if span > 0:
                         y = y0 + ((seed + 5) * 1201) % span
-                        wins = [wins[0], (zw.year_start_ns(y), zw.year_start_ns(y + 50)), wins[1]]
+                        wins = [wins[0], (zw.year_start_ns(y), zw.year_start_ns(y + 20)), wins[1]]
                 items.append((which, zid, canon, wins))
     est = lambda it: sum((hi - lo) // (366 * DAY_NS) if lo > MIN_NS else 450 for lo, hi in it[3])  # noqa: E731
     items.sort(key=lambda it: (-est(it), it[0], it[1], it[3][0][0] if it[3] else 0))
@@ -412,9 +459,11 @@ def build_items(tier, seed):
 def run(ctx):
     tier = ctx.tier
     ctx.rule = ("states = (file, zone id, interval) triples compared with the reference; non-trivial = transitions compared (stored, seam, rule-generated) "
-                "+ ids / fixed-offset id texts examined")
+                "+ ids / fixed-offset id texts examined; besides the forward walk every reference interval is queried through the provider's cached zone at "
+                "start+1ns, midpoint and end-1ns, and every 32-day cache period with two or more reference transitions once more in descending order "
+                "(period start, each transition-1ns, the probe points, period end) - all judged against the reference list, not the library's walk")
     ctx.assumptions = ["reference decoder and rule evaluator (vf/models/nzdref.py, tzrules.py) are written from the format description and import nothing from pyoda_time",
-                       "quick tier: recurring tails compared for 400 years after the tail start + one seed-positioned block of 50 years + 9997..9999; "
+                       "quick tier: recurring tails compared for 400 years after the tail start + one seed-positioned block of 20 years + 9997..9999; "
                        "thorough: every canonical zone of both files to the end of time; aliases: stored periods + %d tail years + 9997..9999" % ALIAS_TAIL_YEARS,
                        "fixed-offset id grid: UTC, UTC+/-hh, hh:mm, hh:mm:ss with hh 0..18, mm/ss in {00,01,30,59} (within +-18:00) plus %d near misses" % sum(1 for _, e in fixed_id_grid() if e is None)]
     for d in zw.DEGRADED:
@@ -466,7 +515,7 @@ def run(ctx):
     # zone of both files (+ the alias windows and the id grid named in the assumptions)
     ctx.exhaustive = (tier == "thorough") and not only and not ctx.caps and not ctx.degraded and not any("/no-termination/" in k for k in ctx.violations)
     if tier == "quick":
-        ctx.cap("quick tier: recurring tails compared for 400 years after their start + 50 seed-positioned years + 9997-9999")
+        ctx.cap("quick tier: recurring tails compared for 400 years after their start + 20 seed-positioned years + 9997-9999")
 
 
 def replay(rec):
